@@ -16,7 +16,7 @@ use std::time::SystemTime;
 use veryl_analyzer::fragment_cache::{self, Fragment, FragmentWatermark};
 use veryl_analyzer::{Analyzer, CachedDiagnostic, scope, symbol_table, type_dag};
 use veryl_cache::Store;
-use veryl_metadata::Metadata;
+use veryl_metadata::{Metadata, SourceMapTarget};
 use veryl_parser::resource_table;
 use veryl_parser::resource_table::StrId;
 use veryl_path::PathSet;
@@ -141,6 +141,11 @@ impl Incremental {
             return true;
         };
         if !path.dst.exists() {
+            return true;
+        }
+        // The source map is written next to the output; a missing one is
+        // only regenerated by emitting again.
+        if metadata.build.sourcemap_target != SourceMapTarget::None && !path.map.exists() {
             return true;
         }
         let modified = fs::metadata(&path.src)
